@@ -189,13 +189,27 @@ theorem Grows.fanFailedIf {a b : St} (h : Grows a b) (state : Json) : Grows a (b
 theorem Grows.iterEnd {a b : St} (h : Grows a b) (name : Str) (i : Nat) (r : Res) : Grows a (b.iterEnd name i r) := by
   unfold St.iterEnd
   split
-  · exact h.push _ rfl rfl rfl
+  · split
+    · exact h
+    · exact h.push _ rfl rfl rfl
   · exact h
 
 theorem Grows.taskCall {a b : St} (h : Grows a b) (counts : List ((Str × Json) × Nat)) (res : Str) (p r : Json)
     (m : Nat) (to : Bool) (tEnd : Rat) :
     Grows a (b.taskCall counts res p (taskEv m r to) tEnd) :=
   h.trans (grows_taskCall _ _ _ _ _ _ (taskEv_plain m r to).1 (taskEv_plain m r to).2.1 (taskEv_plain m r to).2.2)
+
+/-- a task invocation cut by the execution's time limit: the request now, nothing later -/
+theorem grows_taskSilent (st : St) (counts : List ((Str × Json) × Nat)) (res : Str) (p : Json) (tEnd : Rat) :
+    Grows st (st.taskSilent counts res p tEnd) :=
+  ⟨[.lambdaScheduled p res], [st.clock], rfl, rfl,
+   by intro e he; simp at he; subst he; rfl,
+   rfl, rfl, rfl,
+   by intro t ht; simp at ht; subst ht; exact Rat.le_refl,
+   le_rmax_left _ _⟩
+
+theorem Grows.taskSilent {a b : St} (h : Grows a b) (counts : List ((Str × Json) × Nat)) (res : Str) (p : Json)
+    (tEnd : Rat) : Grows a (b.taskSilent counts res p tEnd) := h.trans (grows_taskSilent _ _ _ _ _)
 
 /-- the frame state (`St.fs`) is no part of the history -/
 theorem grows_fr (st : St) (f : FS → FS) : Grows st (st.fr f) := grows_same _ _ rfl rfl rfl Rat.le_refl
@@ -215,7 +229,7 @@ theorem Grows.after {a b : St} (h : Grows a b) (d : Rat) : Grows a (b.after d) :
 theorem Grows.retryAfter {a b : St} (h : Grows a b) (n : Str) (d : Rat) : Grows a (b.retryAfter n d) :=
   ((h.handover n).closeKeep).after d
 
-theorem Grows.fanFail {a b : St} (h : Grows a b) : Grows a { b with fanFail := true } :=
+theorem Grows.fanFail {a b : St} (h : Grows a b) (x : Bool) : Grows a { b with fanFail := x } :=
   h.trans (grows_same _ _ rfl rfl rfl Rat.le_refl)
 theorem Grows.multiFail {a b : St} (h : Grows a b) : Grows a { b with multiFail := true } :=
   h.trans (grows_same _ _ rfl rfl rfl Rat.le_refl)
@@ -277,32 +291,32 @@ local macro "grow_step" : tactic => `(tactic|
   repeat' (first
     | split
     | exact Grows.refl _
-    | apply GrowsAll.thenFrom env n ih
-    | apply GrowsAll.thenLeave env n ih
-    | apply GrowsAll.thenErr env n ih
-    | apply GrowsAll.thenState env n ih
-    | apply GrowsAll.thenJoin env n ih
-    | apply GrowsAll.thenBranches env n ih
-    | apply GrowsAll.thenItems env n ih
-    | apply Grows.exit
-    | apply Grows.enter
-    | apply Grows.fanFailedIf
-    | apply Grows.waitUntil
-    | apply Grows.iterEnd
-    | apply Grows.taskCall
-    | apply Grows.fanFail
-    | apply Grows.multiFail
-    | apply Grows.handover
-    | apply Grows.closeKeep
-    | apply Grows.request
-    | apply Grows.pushLevel
-    | apply Grows.visit
-    | apply Grows.failTok
-    | apply Grows.launch
-    | apply Grows.join
-    | apply Grows.retryAfter
-    | apply Grows.after
-    | (apply Grows.push (hn := rfl) (hx := rfl) (hr := rfl))))
+    | with_reducible apply GrowsAll.thenFrom env n ih
+    | with_reducible apply GrowsAll.thenLeave env n ih
+    | with_reducible apply GrowsAll.thenErr env n ih
+    | with_reducible apply GrowsAll.thenState env n ih
+    | with_reducible apply GrowsAll.thenJoin env n ih
+    | with_reducible apply GrowsAll.thenBranches env n ih
+    | with_reducible apply GrowsAll.thenItems env n ih
+    | with_reducible apply Grows.exit
+    | with_reducible apply Grows.enter
+    | with_reducible apply Grows.fanFailedIf
+    | with_reducible apply Grows.waitUntil
+    | with_reducible apply Grows.iterEnd
+    | with_reducible apply Grows.taskCall
+    | with_reducible apply Grows.taskSilent
+    | with_reducible apply Grows.multiFail
+    | with_reducible apply Grows.handover
+    | with_reducible apply Grows.closeKeep
+    | with_reducible apply Grows.request
+    | with_reducible apply Grows.pushLevel
+    | with_reducible apply Grows.visit
+    | with_reducible apply Grows.failTok
+    | with_reducible apply Grows.launch
+    | with_reducible apply Grows.join
+    | with_reducible apply Grows.retryAfter
+    | with_reducible apply Grows.after
+    | (with_reducible apply Grows.push (hn := rfl) (hx := rfl) (hr := rfl))))
 
 theorem grows_runFrom_step (states : Json) (name : Str) (data ctx : Json) (r : Nat) (st : St) :
     Grows st (runFrom env (n + 1) states name data ctx r st).2 := by
@@ -323,7 +337,11 @@ theorem grows_joinAndLeave_step (states : Json) (name : Str) (state data ctx : J
     (res : Except Res (List Json)) (st : St) :
     Grows st (joinAndLeave env (n + 1) states name state data ctx r res st).2 := by
   simp only [joinAndLeave]
-  grow_step
+  split
+  · apply GrowsAll.thenErr env n ih
+    exact (Grows.refl _).fanFail _
+  · exact Grows.refl _
+  · grow_step
 
 theorem grows_runState_step (states : Json) (name : Str) (state data ctx : Json) (r : Nat) (st : St) :
     Grows st (runState env (n + 1) states name state data ctx r st).2 := by
